@@ -67,11 +67,13 @@ UNIONS = {
     'vol_str': (ValueOrList[int], str),                 # a member whose own converter is a union (with a constructor)
     'none_vol': (type(None), ValueOrList[int]),
     'enumi_str': (EI, t.List[EI], str),
+    'float_any': (float, t.Any),                          # Any accepts everything, but only AFTER the members before it
+    'tuple_any_none': (t.Tuple[int, int], t.Any, type(None)),
 }
 VOCAB = {'da_db': ('a', 'b', 'c'), 'db_da': ('a', 'b', 'c'), 'dc_da': ('a', 'b', 'zz'), 'dict_struct': ('a', 'b', ''),
          'struct_dict': ('a', 'b', ''), 'int_list_p1': ('a', 'b', 'zz'), 'list_pt2': ('a', 'b', 'zz'), 'pt2_list': ('a', 'b', 'zz')}
-NUMERIC = {'num', 'num_rev', 'float_int', 'bool_int', 'int_bool', 'int_list_p1'}
-SMALL = {'num', 'num_rev', 'float_int', 'int_list_p1'}      # float()/complex() of a symbolic int: concretised ints
+NUMERIC = {'num', 'num_rev', 'float_int', 'bool_int', 'int_bool', 'int_list_p1', 'float_any'}
+SMALL = {'num', 'num_rev', 'float_int', 'int_list_p1', 'float_any'}      # float()/complex() of a symbolic int: concretised ints
 
 MEMBERS = {}      # name -> tuple of member converters (built separately)
 SPELL = {}        # name -> dict of equivalent spellings of the union -> converter
@@ -214,6 +216,7 @@ WIT = {
     'dc_da': {'A': (0, -2)}, 'dict_struct': {'A': (0, -2)}, 'struct_dict': {'A': (0, -1, -2)},
     'int_list_p1': {'A': (0, -1, -2)}, 'enum_str': {'A': (0, -1, -2)}, 'listint_liststr': {'A': (0, -1, -2)},
     'vol_str': {'A': (0, -1, -2)}, 'none_vol': {'A': (0, -1, -2)}, 'enumi_str': {'A': (0, -1, -2)},
+    'float_any': {'A': (0, -1)}, 'tuple_any_none': {'A': (-1,), 'B': (0,)},
 }
 for _n in UNIONS:
     _vocab = repr(VOCAB.get(_n, ('a', 'b', 'zz'))) + (', True' if _n in SMALL else '')
@@ -221,7 +224,7 @@ for _n in UNIONS:
     for _g in 'ABC':
         exec(_GEN.format(name=_n, grp=_g, sig=GV_SIG, args=GV_ARGS, pre=GV_PRE[_g], builder='gv', vocab=_vocab,
                          wit=WIT[_n].get(_g, ()), timeout=120, deep=repr(_g == 'A'), members=_mem,
-                         tiers=('quick', 'thorough') if _g == 'A' or (_g, _n) in (('B', 'tuple_list'), ('B', 'pt2_list'), ('C', 'da_db'), ('C', 'db_da'), ('C', 'dict_struct'), ('C', 'struct_dict'), ('B', 'list_pt2'), ('B', 'list_tuple'), ('C', 'dc_da')) else ('thorough',)))
+                         tiers=('quick', 'thorough') if _g == 'A' or (_g, _n) in (('B', 'tuple_list'), ('B', 'tuple_any_none'), ('B', 'pt2_list'), ('C', 'da_db'), ('C', 'db_da'), ('C', 'dict_struct'), ('C', 'struct_dict'), ('B', 'list_pt2'), ('B', 'list_tuple'), ('C', 'dc_da')) else ('thorough',)))
     if _n in NUMERIC:
         exec(_GEN.format(name=_n, grp='F', sig=GVF_SIG, args=GVF_ARGS, pre=GVF_PRE + (' and kt != 0' if 'complex' in _mem else ''),
                          builder='gvf', vocab=repr(VOCAB.get(_n, ('a', 'b', 'zz'))),
